@@ -37,6 +37,10 @@ def disc (s : Stack) : TStore SvcKey × List (Bool × SvcKey × Addr) := (s.foun
 @[simp] theorem disc_sendSd (s : Stack) (es : List SDEntry) (d : Dest) : disc (s.sendSd es d) = disc s := by
   unfold sendSd; split; rfl; simp only []; split; rfl; split <;> rfl
 
+@[simp] theorem disc_with_flushLog (s : Stack) (x : List (Dest × List SDEntry)) : disc { s with flushLog := x } = disc s := rfl
+@[simp] theorem disc_flushTo (s : Stack) (es : List SDEntry) (d : Dest) : disc (s.flushTo es d) = disc s := by
+  unfold flushTo; rw [disc_sendSd]; rfl
+
 @[simp] theorem disc_newCollector (s : Stack) (d : Dest) : disc (s.newCollector d).1 = disc s := rfl
 @[simp] theorem disc_appendCollector (s : Stack) (c : Nat) (e : SDEntry) : disc (s.appendCollector c e) = disc s := rfl
 
@@ -48,7 +52,7 @@ def disc (s : Stack) : TStore SvcKey × List (Bool × SvcKey × Addr) := (s.foun
     · simp
 
 @[simp] theorem disc_collectorTimeout (s : Stack) (c : Nat) : disc (s.collectorTimeout c) = disc s := by
-  unfold collectorTimeout; split; rfl; simp only []; rw [disc_sendSd]; rfl
+  unfold collectorTimeout; split; rfl; simp only []; rw [disc_flushTo]; rfl
 
 @[simp] theorem disc_createTask (s : Stack) (k : TaskKind) : disc (s.createTask k).1 = disc s := rfl
 @[simp] theorem disc_cancelTask (s : Stack) (t : Nat) : disc (s.cancelTask t) = disc s := by
